@@ -267,6 +267,10 @@ def run(cx):
     resend_ref_in_own_frame(cx, "C02.y")
     from props.C11 import ack_advance_exact
     ack_advance_exact(cx, "C02.z")
+    # the receiver's packet window is as wide as the sender's (config mirror): a narrower one drops reliable packets
+    # whose frames are acknowledged
+    from props.C07 import inst_config_mirror
+    inst_config_mirror(cx, "C02.A")
     # a Reliable packet is also "skipped" when the receiver turns it into a data-less packet because its
     # allocation counter drifted (what is charged must be what is released, at both ends), when the frame
     # window refuses the sender's resynchronisation after a fully lost window, or when an id comparison
